@@ -28,7 +28,7 @@ P7_REVIEWED = {
 }
 
 
-def consumer(check, repo, key, modname, qual, self_spec, args, want_kw, what, inject=None, max_depth=1):
+def consumer(check, repo, key, modname, qual, self_spec, args, want_kw, what, inject=None, max_depth=1, index=0, models_extra=None, draw=7):
     """Interpret `qual` and read the keyword arguments of its (single) call to
     Integer.random_range."""
     mod = repo.module(modname)
@@ -37,8 +37,8 @@ def consumer(check, repo, key, modname, qual, self_spec, args, want_kw, what, in
 
     def m_rr(i, a, kw, st, node):
         seen.append(dict(kw))
-        return 7
-    models = {}
+        return draw
+    models = dict(models_extra or {})
     for cn in ("Crypto.Math._IntegerBase.IntegerBase", "Crypto.Math._IntegerGMP.IntegerGMP",
                "Crypto.Math._IntegerNative.IntegerNative", "Crypto.Math._IntegerCustom.IntegerCustom"):
         models[cn + ".random_range"] = m_rr
@@ -50,10 +50,10 @@ def consumer(check, repo, key, modname, qual, self_spec, args, want_kw, what, in
         it.inject[k] = realise(it.inject[k], it, st, memo)
     a = dict((k, realise(v, it, st, memo)) for k, v in args.items())
     it.run(mod, fn, a, self_obj=me, state=st)
-    ok = len(seen) >= 1
+    ok = len(seen) >= index + 1
     got = None
     if ok:
-        kw = seen[0]
+        kw = seen[index]
         got = dict((k, kw.get(k)) for k in ("min_inclusive", "max_inclusive", "max_exclusive"))
         for k, v in want_kw.items():
             if got.get(k) != v:
@@ -72,6 +72,9 @@ def run(check, ctx):
     repo = ctx.repo
     selection_rows(check, repo)
     dsa_private_key_rows(check, repo)
+    # the prime filters of RSA.generate: both primes lie in the interval that makes the modulus exactly `bits` long
+    from .c05_extra import rsa_generate_filters
+    rsa_generate_filters(check, repo)
     ORDER, PRIME = 1000003, 1000033
     RF = ABuiltin("vstat.rf")
     DSS = "Crypto.Signature.DSS"
@@ -96,6 +99,12 @@ def run(check, ctx):
     consumer(check, repo, "dsa.blind", "Crypto.PublicKey.DSA", "DsaKey._sign",
              OBJ(("Crypto.PublicKey.DSA", "DsaKey"), _havoc=False, _key={"x": 3, "q": ORDER, "p": PRIME, "g": 4, "y": 5}),
              {"m": 3, "k": 7}, {"min_inclusive": 1, "max_exclusive": ORDER}, "blinding factor in [1, q-1]")
+    ELG = "Crypto.PublicKey.ElGamal"
+    safe = {"Crypto.Math.Primality.generate_probable_safe_prime": lambda i, a, kw, st, node: 23}
+    consumer(check, repo, "elgamal.generate.g", ELG, "generate", None, {"bits": 5, "randfunc": RF}, {"min_inclusive": 2, "max_exclusive": 23},
+             "candidate for the generator in [2, p-1] (squared afterwards)", models_extra=safe, max_depth=2, index=0)
+    consumer(check, repo, "elgamal.generate.x", ELG, "generate", None, {"bits": 5, "randfunc": RF}, {"min_inclusive": 2, "max_exclusive": 22},
+             "private key x in [2, p-2] (documented: 1 < x < p-1)", models_extra=safe, max_depth=2, index=1)
     consumer(check, repo, "rsa.blind", "Crypto.PublicKey.RSA", "RsaKey._decrypt_to_bytes",
              OBJ(("Crypto.PublicKey.RSA", "RsaKey"), _havoc=False, _n=PRIME, _e=3, _d=7, _p=11, _q=13, _u=2, _dp=1, _dq=1),
              {"ciphertext": 5}, {"min_inclusive": 1, "max_exclusive": PRIME}, "RSA blinding factor in [1, n-1]")
